@@ -266,6 +266,10 @@ fn get_match_statically_known(
     provider.query_variable = &query_variable;
     provider.query_function = &asm::resolver::get_statically_known_builtin_fn;
 
+    // Every argument is evaluated and range-checked on resolution,
+    // even when the rule's production does not read it
+    let mut all_args_known = true;
+
     for i in 0..rule.parameters.len()
     {
         let param = &rule.parameters[i];
@@ -289,6 +293,10 @@ fn get_match_statically_known(
                                 ..expr::StaticallyKnownLocal::new()
                             });
                     }
+                    else
+                    {
+                        all_args_known = false;
+                    }
                 }
             }
 
@@ -309,12 +317,17 @@ fn get_match_statically_known(
                                 ..expr::StaticallyKnownLocal::new()
                             });
                     }
+                    else
+                    {
+                        all_args_known = false;
+                    }
                 }
             }
         }
     }
 
-    rule.expr.is_value_statically_known(&provider)
+    all_args_known &&
+        rule.expr.is_value_statically_known(&provider)
 }
 
 
